@@ -420,7 +420,7 @@ ALPHABET = [(f, r) for f in ("00", "10", "01") for r in (0, 1)]
 
 
 def suite_exhaustive(ctx: Ctx) -> SuiteResult:
-    L = 6
+    L = 7 if ctx.tier == "thorough" else 6
     res = SuiteResult(
         "gym-exhaustive-patterns", exhaustive=True,
         rule=f"every per-step pattern of length 1..{L} over (flags in {{none, terminated, truncated}}) "
